@@ -3,6 +3,7 @@ package mc
 import (
 	"fmt"
 	"math/big"
+	"strings"
 
 	"verif/ref"
 )
@@ -131,4 +132,73 @@ func GLVScalars(full bool) []Val {
 		s.add(fmt.Sprintf("k1 = -%x, k2 = -1", h), comb(new(big.Int).Neg(h), big.NewInt(-1)))
 	}
 	return s.out
+}
+
+// EndoWindowScalars returns the scalars s = S + w*B^i (window width b in {4, 8}, B = 2^b) for which the partial sum S
+// accumulated by a windowed fixed-base multiplication before window i is added - the higher windows (top-down
+// order) or the lower windows (bottom-up order) - satisfies S = +-lambda^k * (w*B^i) (mod n), k in {1, 2}: the
+// accumulator S*G and the table entry (w*B^i)*G are then DISTINCT points with the same y-coordinate (or opposite y),
+// because (x, y) -> (beta*x, y) is the endomorphism lambda. An addition formula or a "same point / inverse point"
+// shortcut that looks at one coordinate only is wrong exactly there. A handful of scalars exist per window width.
+func EndoWindowScalars() []Val {
+	var out []Val
+	l2 := new(big.Int).Mod(new(big.Int).Mul(ref.Lambda, ref.Lambda), ref.N)
+	for _, b := range []uint{4, 8} {
+		nw := 256 / b
+		for i := uint(0); i < nw; i++ {
+			bi := new(big.Int).Lsh(big.NewInt(1), b*i)
+			bi1 := new(big.Int).Lsh(big.NewInt(1), b*(i+1))
+			for w := int64(1); w < 1<<b; w++ {
+				term := new(big.Int).Mul(big.NewInt(w), bi)
+				if term.Cmp(ref.N) >= 0 {
+					continue
+				}
+				for k, lk := range []*big.Int{ref.Lambda, l2} {
+					for _, neg := range []bool{false, true} {
+						t := new(big.Int).Mul(lk, term)
+						if neg {
+							t.Neg(t)
+						}
+						t.Mod(t, ref.N)
+						s := new(big.Int).Add(t, term)
+						if s.Cmp(ref.N) >= 0 || t.Sign() == 0 {
+							continue
+						}
+						if new(big.Int).Mod(t, bi1).Sign() == 0 { // t is a sum of higher windows
+							out = append(out, Val{fmt.Sprintf("endomorphism/window: %d-bit windows, top-down, before window %d (digit %d) the partial sum is %slambda^%d times the table entry", b, i, w, map[bool]string{false: "", true: "-"}[neg], k+1), s})
+						}
+						if t.Cmp(bi) < 0 { // t is a sum of lower windows
+							out = append(out, Val{fmt.Sprintf("endomorphism/window: %d-bit windows, bottom-up, before window %d (digit %d) the partial sum is %slambda^%d times the table entry", b, i, w, map[bool]string{false: "", true: "-"}[neg], k+1), s})
+						}
+					}
+				}
+			}
+		}
+	}
+	return out
+}
+
+// GLVVerifierSubset: the GLV-steered scalars worth constructing whole signatures around (u2 = s/r of a verifier or of
+// key recovery): every rounding / quotient boundary scalar that the quick tiers keep, the lattice corners, and the
+// splits with an empty half (k1 = 0 or k2 = 0: the scalar is a small multiple of lambda, or short) or equal halves.
+func GLVVerifierSubset(th bool) []Val {
+	var out []Val
+	for gi, gv := range GLVScalars(false) {
+		l := gv.Label
+		switch {
+		case strings.HasPrefix(l, "rounding") || strings.HasPrefix(l, "quotient"):
+			if !th && !(strings.Contains(l, "m=ffffffffffffffff,") || strings.Contains(l, "m=0,") || gi%7 == 0) {
+				continue
+			}
+		case strings.HasPrefix(l, "GLV corner"):
+		case strings.HasPrefix(l, "k1 = 0, k2 =") || strings.HasSuffix(l, ", k2 = 0") || strings.HasPrefix(l, "k1 = k2") || strings.HasPrefix(l, "k1 = -k2"):
+			if !th && !(strings.HasSuffix(l, "16^0") || strings.HasSuffix(l, "16^0, k2 = 0") || strings.Contains(l, "16^31") || strings.Contains(l, "16^16")) {
+				continue
+			}
+		default:
+			continue
+		}
+		out = append(out, gv)
+	}
+	return out
 }
